@@ -26,6 +26,15 @@ func fuzzSeeds(f *testing.F, ver int) {
 	for _, v := range representatives(ver) {
 		add(v.String())
 	}
+	// a few hostile shapes as starting points: floods at small boundaries, a long token,
+	// full-width characters, dense multi-byte text
+	n := 0
+	gen.Shapes(ver, representatives(ver)[0], spec.Environmental, false, func(s, label string) {
+		n++
+		if len(s) < 1200 && n%97 == 0 {
+			f.Add(byte(n%6), s)
+		}
+	})
 	// hostile constants
 	for _, s := range []string{"", "/", ":", "//", "::", "CVSS:", "CVSS:3.1", "CVSS:3.1/", "CVSS:3.1//", "CVSS:3.1/AV:N/AV:N", "CVSS:3.1/AV:", "CVSS:3.1/:N",
 		"CVSS:2.0/AV:N/AC:L/Au:N/C:P/I:P/A:C", "AV:N/AC:L/Au:N/C:P/I:P/A:C/", "AV:N/AC:L/Au:N/C:P/I:P/A:C/E:H", "AV:N/AC:L/Au:N/C:P/I:P/A:C/RC:C/RL:U/E:H",
